@@ -686,9 +686,11 @@ def arith(it, op, a, b, node):
         return SV('real', xz / yz)
     if isinstance(op, ast.FloorDiv) and not real:
         it.safety_check(yz != 0, ZeroDivisionError, node, 'division by zero')
-        # python floor division: z3 int div is floor for positive divisor
-        q = z3.If(yz > 0, xz / yz, -((-xz) / (-yz)) if False else (xz / yz))
-        return SV('int', z3.If(yz > 0, xz / yz, z3.If(xz % yz == 0, xz / yz, xz / yz)))
+        # python floor division: z3 int div is floor for a positive divisor only
+        yv = z3.simplify(yz)
+        if not (z3.is_int_value(yv) and yv.as_long() > 0):
+            raise Unsupported('floor division by a divisor that is not a positive constant')
+        return SV('int', xz / yz)
     if isinstance(op, ast.Mod) and not real:
         it.safety_check(yz != 0, ZeroDivisionError, node, 'modulo by zero')
         return SV('int', xz % yz)
